@@ -1748,7 +1748,7 @@ def cli_stubs():
         '(*github.com/urfave/cli/v2.Context).Int': cli_flag('int'), '(*github.com/urfave/cli/v2.Context).Int64': cli_flag('int'),
         '(*github.com/urfave/cli/v2.Context).Bool': cli_flag('bool'),
         'fmt.Println': fmt_Println,
-        P + 'ReadSystemFromFile': fork_result('ReadSystemFromFile', new_ps), P + 'ReadSystemFromS3': fork_result('ReadSystemFromS3', new_ps),
+        P + 'ReadSystemFromFile': lambda ex, st, a, c: read_system_from_file(ex, st, a, c), P + 'ReadSystemFromS3': fork_result('ReadSystemFromS3', new_ps),
         P + 'SetupInsertion': fork_result('SetupInsertion', new_ps), P + 'SetupDeletion': fork_result('SetupDeletion', new_ps),
         P + 'ImportInsertionSetup': fork_result('ImportInsertionSetup', new_ps), P + 'ImportDeletionSetup': fork_result('ImportDeletionSetup', new_ps),
         P + 'BuildR1CSInsertion': fork_result('BuildR1CSInsertion', lambda ex, st, a: (Opaque('cs', sys='c', oid=new_oid()), NIL)),
@@ -1787,3 +1787,26 @@ def conv_string2bytes(ex, st, x):
 
 
 BASE.update({'conv:bytes2string': conv_bytes2string, 'conv:string2bytes': conv_string2bytes})
+
+
+def read_system_from_file(ex, st, args, ctx):
+    used('prover.ReadSystemFromFile (API boundary for the CLI): a loaded system, or an error together with a non-nil half-loaded system (as the real function does)')
+    c = z3.Int(ex.newsym('ReadSystemFromFile_outcome'))
+
+    def ok(s2):
+        s2.events.append(('api', 'ReadSystemFromFile', 'ok', ()))
+        return new_ps(ex, s2, args)
+
+    def bad(with_vk):
+        def f(s2):
+            s2.events.append(('api', 'ReadSystemFromFile', 'err', ()))
+            ps, _ = new_ps(ex, s2, args)
+            v = ex.load(s2, ps)
+            fl = list(v.f)
+            fl[4] = NIL
+            if not with_vk:
+                fl[2], fl[3] = NIL, NIL
+            s2.heap[ps.obj] = Struct(fl)
+            return (ps, Iface(-1, Opaque('error', msg=S('truncated or unreadable keys file'), origin=ctx['pos'])))
+        return f
+    return Forks([(c == 0, ok, None), (c == 1, bad(False), None), (c == 2, bad(True), None)])
